@@ -71,7 +71,4 @@ def Const.statusValidateFailed : Nat := 4
 def Const.statusInvalidAncestor : Nat := 8
 def Const.statusHeaderStored : Nat := 16
 
-/-- `FlushRequired, FlushPeriodic, FlushIfNeeded`. -/
-def Const.flushModes : List Int := [0, 1, 2]
-
 end BV.C04
